@@ -206,12 +206,29 @@ def checkTxFeeLimit (maxFee fee : Nat) : Except Err Unit := if maxFee < fee then
 
 -- ------------------------------------------------------------------ reservation cache
 
-/-- usedCache: outpoints handed out in drafts (time is not modelled: entries live `reservationTTL`
-    seconds, `expireAll` is the only way they age) -/
-abbrev Reserved := List String
+/-- usedCache: outpoint ↦ the drafts (transaction ids) that spend it.  Time is not modelled: entries
+    live `Gen.TxBuild.reservationTTLSeconds`, a process restart empties the cache. -/
+abbrev Reserved := List (String × List String)
 
-def markUsed (r : Reserved) (ins : List String) : Reserved := r ++ ins.filter (fun i => !r.contains i)
-def utxoUsed (r : Reserved) (i : String) : Bool := r.contains i
-def clearUsed (r : Reserved) (ins : List String) : Reserved := r.filter (fun i => !ins.contains i)
+def holdersOf (r : Reserved) (i : String) : List String := ((r.find? (fun e => e.1 == i)).map (·.2)).getD []
+
+/-- MarkUsedUTXO(draft): the draft joins the holders of each of its inputs -/
+def markUsed (r : Reserved) (holder : String) (ins : List String) : Reserved :=
+  ins.foldl (fun r i => (r.filter (fun e => e.1 != i)) ++ [(i, holder :: (holdersOf r i).filter (· != holder))]) r
+
+/-- UTXOUsed -/
+def utxoUsed (r : Reserved) (i : String) : Bool := r.any (fun e => e.1 == i)
+
+/-- ClearUsedUTXOMark(draft).  `perDraft` (regenerated fact `releaseChecksHolder`): the draft leaves
+    the holders of its inputs and an entry disappears with its last holder; without it the entries of
+    all inputs are deleted whoever holds them. -/
+def clearUsed (perDraft : Bool) (r : Reserved) (holder : String) (ins : List String) : Reserved :=
+  if perDraft then
+    r.filterMap (fun e =>
+      if ins.contains e.1 then
+        let rest := e.2.filter (· != holder)
+        if rest.isEmpty then none else some (e.1, rest)
+      else some e)
+  else r.filter (fun e => !ins.contains e.1)
 
 end MW.Model.Fee
